@@ -41,6 +41,12 @@ def gen_inputs(rng, thorough):
     # blocks that grow: a few long strings first, then many short ones (later blocks hold more strings than
     # earlier ones built by the same worker)
     ins["growing"] = sorted(set([b"A" + bytes([65 + k]) * 90 for k in range(8)] + rnd(260, 2, 3, b"z")))
+    # many small blocks (cut 1: one block per string): workers finish blocks while the producer's containers grow
+    lower = bytes(range(97, 123))
+    many = set()
+    while len(many) < 1500:
+        many.add(bytes(rng.choice(lower) for _ in range(rng.randint(6, 10))))
+    ins["many1500"] = sorted(many)
     if thorough:
         ins["rand400"] = rnd(400, 1, 30)
         ins["mixed"] = sorted(set(rnd(60, 1, 3) + rnd(60, 100, 160, b"\xfe\xfe")))
@@ -215,6 +221,18 @@ def run_c09(pid, tier):
                                 line = re.sub(r'"run":\d+', '"run":%d' % run_no, line, 1)
                                 run_no += 1
                             out.write(line)
+                        if threads in (3, 8) and nblocks(S, cut) >= 20:
+                            # the same build with the producer slowed down whenever it frees a buffer (schedule perturbation
+                            # from outside the library): unlocked accesses of the producer to shared containers get a wide window
+                            r = subprocess.run([exe, "free", inp, str(ov), str(cut), str(threads), str(n), one],
+                                               capture_output=True, text=True, timeout=1200, env=dict(os.environ, BLOCKS_PERTURB="1"))
+                            if r.returncode != 0:
+                                raise RuntimeError("blocks free run (perturbed) failed: " + r.stderr[-300:])
+                            for line in open(one):
+                                if line.startswith('{"e":"Reset"'):
+                                    line = re.sub(r'"run":\d+', '"run":%d' % run_no, line, 1)
+                                    run_no += 1
+                                out.write(line)
     h, bad = validate_blocks(free_tr, "free")
     execs += h["runs"]
     free_runs = h["runs"]
@@ -374,7 +392,7 @@ def run_c11(pid, tier):
                         d.update({"run": run_no, "S": [], "overhead": 0, "cut": 0, "threads": nw, "mode": "poolstress"})
                         run_no += 1
                         tsan_runs += 1
-                        out.write(json.dumps(d) + "\n")
+                        out.write(json.dumps(d, separators=(",", ":")) + "\n")
                         if first:
                             for rc_ in races:
                                 out.write(json.dumps({"e": "race", "kind": rc_["kind"], "sites": rc_["sites"]}) + "\n")
